@@ -146,6 +146,8 @@ def gradient(t, dim="all", bounds=None):
 
     if dim == "all":
         dim = range(t.dim())
+    if not hasattr(dim, "__len__"):
+        return tn.partial(t, dim, order=1, bounds=bounds)
     if bounds is None:
         bounds = [[0, t.shape[d]] for d in dim]
     if not hasattr(bounds, "__len__"):
